@@ -1,11 +1,46 @@
-(* C04 -- placeholder while the proofs are being developed: states only that acceptance implies the by-itself checks. *)
+(* C04 -- fork choice.  For every hash function, every block tree and every parent-before-child arrival order
+   (arrivals l s): the head is the earliest-arrived block among those of greatest height; the reported tips are
+   exactly the stored blocks without stored children; the by-height index at every block lists exactly that block's
+   ancestors and itself; forks() returns the last common ancestor with the active chain. *)
 From stdpp Require Import gmap.
-From Coq Require Import NArith ZArith.
-From SkV Require Import Bytes Codec Ledger ChainState Pow Validate.
-Theorem C04_accept_passes_by_itself : forall sha scrypt blake verify P s b now s',
-  add_block sha scrypt blake verify P s b now = Ok s' -> v_block_by_itself sha P b now = Ok tt.
-Proof.
-  intros sha scrypt blake verify P s b now s' H. unfold add_block, bind in H.
-  destruct (v_block_by_itself sha P b now) as [[]|k] eqn:E; [reflexivity | discriminate].
-Qed.
-Print Assumptions C04_accept_passes_by_itself.
+From Coq Require Import NArith.
+From SkV Require Import Bytes Codec Ledger ChainState ChainDefs ForkChoiceProofs.
+
+Theorem C04_head : forall sha l s, arrivals sha l s -> l <> [] ->
+  exists hb, cs_cur s = Some (block_id sha hb) /\ stored sha s hb /\
+    (forall b, stored sha s b -> (b_height b <= b_height hb)%N) /\
+    (forall b, stored sha s b -> b_height b = b_height hb -> block_id sha b <> block_id sha hb ->
+       exists i j, arrival_index sha l (block_id sha hb) = Some i /\ arrival_index sha l (block_id sha b) = Some j /\
+                   (i < j)%nat).
+Proof. exact fc_head. Qed.
+
+Theorem C04_tips : forall sha l s, arrivals sha l s ->
+  forall h, h ∈ dom (cs_heads s) <-> exists b, stored sha s b /\ block_id sha b = h /\ ~ has_child sha s b.
+Proof. exact fc_tips. Qed.
+
+Theorem C04_index : forall sha l s b, arrivals sha l s -> stored sha s b ->
+  exists m, cs_byheight s !! block_id sha b = Some m /\
+            forall k a, m !! k = Some a <-> (ancestor_or_self sha s a b /\ b_height a = k).
+Proof. exact fc_index. Qed.
+
+Theorem C04_forks_lca : forall sha l s h t c main, arrivals sha l s ->
+  cs_heads s !! h = Some t -> cs_cur s = Some c -> cs_byheight s !! c = Some main ->
+  exists a, lca_with_main sha (S (size (cs_blocks s))) s main t = Some a /\
+    ancestor_or_self sha s a t /\
+    (exists hb, stored sha s hb /\ block_id sha hb = c /\ ancestor_or_self sha s a hb) /\
+    forall x hb, block_id sha hb = c -> stored sha s hb -> ancestor_or_self sha s x t ->
+                 ancestor_or_self sha s x hb -> (b_height x <= b_height a)%N.
+Proof. exact fc_lca. Qed.
+
+Theorem C04_ids : forall sha l s h b, arrivals sha l s -> cs_blocks s !! h = Some b -> h = block_id sha b.
+Proof. exact fc_ids. Qed.
+
+Example C04_example_head_first_seen :
+  cs_cur ForkChoiceProofs.Example.s3 = Some (block_id ForkChoiceProofs.Example.sha ForkChoiceProofs.Example.c1).
+Proof. exact ForkChoiceProofs.Example.ex_head. Qed.
+
+Print Assumptions C04_head.
+Print Assumptions C04_tips.
+Print Assumptions C04_index.
+Print Assumptions C04_forks_lca.
+Print Assumptions C04_ids.
